@@ -1,11 +1,13 @@
 """C03 -- generated equality is exact-class, field-wise ==.
 
 Case = the Lean `Attrs.C03.Case`:
-  * fields with their eq/cmp/hash arguments and the scripted outcome of every comparison,
+  * fields with their eq/cmp/order/hash arguments and the scripted outcome of every comparison (raw, through
+    the eq key and -- separately -- through the order key, which `==` must never use),
   * kind of right operand,
   * class facts: class-level eq argument, effective auto_detect, what the body of C, every ancestor, the
     subclass and the foreign operand's class define under `__eq__` / `__ne__`,
   * the history of the operands before they are compared (hash() taken and cached, fields re-assigned),
+  * what the metaclass of all classes involved answers for `==`/`!=` between class objects,
 plus a harness-only `cfg` that says how those facts are realised (api, slots, frozen, class-level
 eq/order/cmp spelling, inherited split, builtin / mixin / exception root, attrs base with generated or
 hand-written methods, kind of subclass / foreign operand, hash= / unsafe_hash= / cache_hash=, payloads of
@@ -21,8 +23,10 @@ import attr
 import attrs
 
 ID = "C03"
-RULE = ("cases = (per-field cmp/eq argument x hash argument x scripted outcome of raw and keyed == (and, independently, "
-        "of !=) x same-object flag x equal/different hash codes) x right-operand kind x class facts (class-level "
+RULE = ("cases = (per-field cmp/eq/order argument (order: unset/True/False/key function of its own) x hash argument x "
+        "scripted outcome of raw, eq-keyed and order-keyed == (and, independently, of !=) x same-object flag x "
+        "equal/different hash codes) x right-operand kind x metaclass (plain type, or one whose __eq__/__ne__/both "
+        "answer scripted outcomes -- e.g. equate all classes of the case, or make a class unequal to itself) x class facts (class-level "
         "eq/cmp, auto_detect, hand-written __eq__/__ne__ in the class body, ancestors: attrs base with generated or "
         "hand-written methods over object / list / dict / str / float / int / tuple / exception / plain mixin with "
         "__eq__, __ne__ or both; subclass and foreign operand with or without methods of their own) x hashing "
@@ -40,6 +44,9 @@ ASSUMPTIONS = [
     "builtin methods are represented by the outcome they give for the operands of the case (payloads chosen accordingly)",
     "the hashing history and the hash-related arguments are varied by the harness; model and spec never read them "
     "(theorem C03_history_irrelevant), i.e. the expected results are those of fresh operands",
+    "the metaclass and the per-field order= argument are part of the Lean case but model and spec never read them "
+    "(theorems C03_class_identity_not_equality, C03_order_key_irrelevant); a metaclass __eq__/__ne__ call or an order-key "
+    "comparison during C.__eq__/C.__ne__ shows up in the trace, which the spec rejects",
     "classes for which attrs does not generate equality (eq=False, auto_detect with own methods, auto_exc exceptions) "
     "are outside the property and not generated",
 ]
@@ -47,7 +54,10 @@ EXHAUSTIVE = {"quick": False, "thorough": False}
 BUDGET_S = {"quick": 35, "thorough": 420}
 
 OUTCOMES = ["T", "F", "truthy", "falsy"]
-EQARGS = [("unset", "unset"), ("unset", "t"), ("unset", "f"), ("unset", "key"), ("t", "unset"), ("f", "unset"), ("key", "unset")]
+ARGS4 = ["unset", "t", "f", "key"]
+# (cmp, eq, order) combinations `attrib()` accepts: cmp excludes the others; order=True/key needs eq != False
+EQARGS = [("unset", e, o) for e in ARGS4 for o in ARGS4 if not (e == "f" and o in ("t", "key"))] + \
+         [(c, "unset", "unset") for c in ("t", "f", "key")]
 RHS = ["same", "identical", "sub", "super", "foreign"]
 NAMES = ["a", "b", "c", "d"]
 BUILTIN_ROOTS = {"list": list, "dict": dict, "str": str, "float": float, "int": int, "tuple": tuple}
@@ -89,12 +99,27 @@ class K:
         return self.h
 
 
+class KO(K):
+    """what the ORDER key function returns: must never take part in == / !="""
+
+    def __eq__(self, other):
+        LOG.append(self.name + ":okey")
+        return MK[self.keyed]
+
+    def __ne__(self, other):
+        LOG.append(self.name + ":okey!=")
+        return MK[self.ne]
+
+    __hash__ = K.__hash__
+
+
 class S:
     """scripted raw value"""
 
-    def __init__(self, name, raw, keyed, ne_raw="T", ne_keyed="T", h=0):
+    def __init__(self, name, raw, keyed, ne_raw="T", ne_keyed="T", h=0, order_keyed="T"):
         self.name, self.raw, self.ne, self.h = name, raw, ne_raw, h
         self.k = K(name, keyed, ne_keyed, h + 7)
+        self.ok = KO(name, order_keyed, ne_keyed, h + 11)
 
     def __eq__(self, other):
         LOG.append(self.name)
@@ -110,6 +135,11 @@ class S:
 
 def key_fn(v):
     return v.k
+
+
+def okey_fn(v):
+    """the order key: a function of its own"""
+    return v.ok
 
 
 def canon(v):
@@ -148,6 +178,7 @@ def decoy_key(v):
 
 _ARG = {"t": True, "f": False, "key": key_fn}
 _ARG_DECOY = {"t": True, "f": False, "key": decoy_key}
+_OARG = {"t": True, "f": False, "key": okey_fn}
 _CLASS_CACHE: dict = {}
 _BUILDS = [0]
 
@@ -159,6 +190,8 @@ def _field_kwargs(f, arg=None):
         kw["cmp"] = arg[f["cmp"]]
     if f["eq"] != "unset":
         kw["eq"] = arg[f["eq"]]
+    if f.get("order", "unset") != "unset":
+        kw["order"] = _OARG[f["order"]]
     h = f.get("hash", "unset")
     if h != "unset":
         kw["hash"] = h == "t"
@@ -183,6 +216,28 @@ def _scripted_methods(layer, who):
             return MK[_o]
         ns["__ne__"] = __ne__
     return ns
+
+
+def _metaclass(layer):
+    """a metaclass whose == / != between class objects answer scripted outcomes (plain `type` if none)"""
+    if not layer or not (layer.get("eq") or layer.get("ne")):
+        return type
+    ns = {"__hash__": type.__hash__}
+    if layer.get("eq"):
+        o = layer["eq"]
+
+        def __eq__(cls, other, _o=o):
+            LOG.append("META:eq")
+            return MK[_o]
+        ns["__eq__"] = __eq__
+    if layer.get("ne"):
+        o2 = layer["ne"]
+
+        def __ne__(cls, other, _o=o2):
+            LOG.append("META:ne")
+            return MK[_o]
+        ns["__ne__"] = __ne__
+    return type("Meta", (type,), ns)
 
 
 # ------------------------------------------------------------------------------------------ class facts
@@ -248,6 +303,11 @@ def valid(case):
         return False
     if cfg.get("root") in ("int", "tuple") and cfg.get("slots") is not False:
         return False
+    m = cfg.get("meta")
+    if m is not None and not (m.get("eq") or m.get("ne")):
+        return False
+    if m and cfg.get("api") == "make_class" and cfg.get("base_mode", "gen") == "none" and cfg.get("root") != "mixin":
+        return False        # make_class derives the metaclass from the bases
     if cfg.get("cache_hash") and not hash_generated(cfg):
         return False
     h = case["hist"]
@@ -263,7 +323,7 @@ def valid(case):
     if any(n not in names for n in h["reassignedX"] + h["reassignedY"]):
         return False
     for f in case["fields"]:
-        if f["cmp"] != "unset" and f["eq"] != "unset":
+        if (f["cmp"], f["eq"], f.get("order", "unset")) not in EQARGS:
             return False
         if f["sameObj"] and f["hashDiffers"]:
             return False
@@ -297,6 +357,7 @@ def _finish(case):
         "ancestors": anc,
         "subLayer": sub,
         "foreignLayer": foreign,
+        "metaLayer": _layer(cfg.get("meta")),
         "hist": dict(case["hist"], cacheHash=bool(cfg.get("cache_hash"))),
     })
     return out
@@ -340,7 +401,8 @@ def _deco(api):
 
 def build(case):
     cfg = case.get("cfg", {})
-    key = (tuple((f["name"], f["cmp"], f["eq"], f.get("hash", "unset")) for f in case["fields"]),
+    key = (tuple((f["name"], f["cmp"], f["eq"], f.get("order", "unset"), f.get("hash", "unset")) for f in case["fields"]),
+           case["rhs"],
            json.dumps(cfg, sort_keys=True))
     got = _CLASS_CACHE.get(key)
     if got is not None:
@@ -358,6 +420,7 @@ def build(case):
     cls_kw = _cls_kwargs(cfg)
     base_fields = case["fields"][:split]
     own_fields = case["fields"][split:]
+    M = _metaclass(cfg.get("meta"))      # every class of the case is an instance of it
 
     def mk(f):
         # `field()` of the next-gen API has no cmp=; attr.ib inside define is allowed
@@ -378,7 +441,7 @@ def build(case):
     # ---- the non-attrs root of the hierarchy
     root = cfg.get("root", "object")
     if root == "mixin":
-        Root = type("Mixin", (object,), _scripted_methods(cfg.get("mixin"), "MIXIN"))
+        Root = M("Mixin", (object,), _scripted_methods(cfg.get("mixin"), "MIXIN"))
     elif root == "exc":
         Root = Exception
     elif root in BUILTIN_ROOTS:
@@ -390,12 +453,12 @@ def build(case):
     common = {k: v for k, v in cls_kw.items() if k in ("slots", "frozen", "auto_exc")}
     bdeco = attr.s if api == "make_class" else deco
     if bm == "gen":
-        Base = bdeco(**cls_kw)(type("Base", (Root,), {f["name"]: mk(f) for f in base_fields}))
+        Base = bdeco(**cls_kw)(M("Base", (Root,), {f["name"]: mk(f) for f in base_fields}))
     elif bm == "user":
         body = {f["name"]: mk(f) for f in base_fields}
         body.update(_scripted_methods(cfg.get("base_own"), "BASE"))
         keep = {"auto_detect": True} if cfg.get("base_keep") == "auto_detect" else {"eq": False}
-        Base = bdeco(**common, **keep)(type("Base", (Root,), body))
+        Base = bdeco(**common, **keep)(M("Base", (Root,), body))
     else:
         Base = Root
     # ---- C
@@ -405,26 +468,26 @@ def build(case):
     else:
         body = {f["name"]: mk(f) for f in own_fields}
         body.update(_scripted_methods(cfg.get("own"), "OWN"))
-        C = deco(**cls_kw)(type("C", (Base,), body))
+        C = deco(**cls_kw)(M("C", (Base,), body))
     # ---- subclass
     sk = cfg.get("sub_kind", "plain")
     D = F = None
     if case["rhs"] == "sub":
         if sk == "plain":
-            D = type("D", (C,), {})
+            D = M("D", (C,), {})
         elif sk == "plain_user":
-            D = type("D", (C,), _scripted_methods(cfg.get("sub_own"), "SUB"))
+            D = M("D", (C,), _scripted_methods(cfg.get("sub_own"), "SUB"))
         elif sk == "attrs":
-            D = bdeco(**cls_kw)(type("D", (C,), {}))
+            D = bdeco(**cls_kw)(M("D", (C,), {}))
         else:   # attrs subclass that does not generate equality: inherits C's
-            D = bdeco(**common, eq=False)(type("D", (C,), {}))
+            D = bdeco(**common, eq=False)(M("D", (C,), {}))
     # ---- foreign
     if case["rhs"] == "foreign":
         fk = cfg.get("foreign_kind", "twin")
         if fk == "twin":       # unrelated twin with the same name and fields
-            F = bdeco(**cls_kw)(type("C", (object,), {f["name"]: mk(f) for f in case["fields"]}))
+            F = bdeco(**cls_kw)(M("C", (object,), {f["name"]: mk(f) for f in case["fields"]}))
         elif fk == "user":
-            F = type("Foreign", (object,), _scripted_methods(cfg.get("foreign_own"), "FOREIGN"))
+            F = M("Foreign", (object,), _scripted_methods(cfg.get("foreign_own"), "FOREIGN"))
         else:
             F = object
     res = (Root, Base, C, D, F, [f["name"] for f in base_fields])
@@ -456,12 +519,13 @@ def observe(case):
     xv, yv = {}, {}
     for i, f in enumerate(fs):
         n = f["name"]
-        xv[n] = S(n, f["raw"], f["keyed"], f.get("neRaw", "T"), f.get("neKeyed", "T"), 1000 + 16 * i)
+        xv[n] = S(n, f["raw"], f["keyed"], f.get("neRaw", "T"), f.get("neKeyed", "T"), 1000 + 16 * i,
+                  f.get("orderKeyed", "T"))
         if f["sameObj"]:
             yv[n] = xv[n]
         else:
             yv[n] = S(n, f["raw"], f["keyed"], f.get("neRaw", "T"), f.get("neKeyed", "T"),
-                      (2000 if f.get("hashDiffers") else 1000) + 16 * i)
+                      (2000 if f.get("hashDiffers") else 1000) + 16 * i, f.get("orderKeyed", "T"))
     # values held before a re-assignment: never to be compared, hash codes of their own
     x0, y0 = dict(xv), dict(yv)
     for i, n in enumerate(hist.get("reassignedX", [])):
@@ -548,6 +612,8 @@ def dist(case, obs):
         "sub_kind": cfg.get("sub_kind") if case["rhs"] == "sub" else "-",
         "foreign_kind": cfg.get("foreign_kind") if case["rhs"] == "foreign" else "-",
         "hash_arg": "".join(sorted({f.get("hash", "unset")[0] for f in case["fields"]})),
+        "order_arg": "".join(sorted({f.get("order", "unset")[0] for f in case["fields"]})),
+        "metaclass": "+".join(k for k in ("eq", "ne") if (cfg.get("meta") or {}).get(k)) or "type",
     }
 
 
@@ -584,7 +650,10 @@ def _rand_cfg(rng):
         "hash_mode": "none",
         "cache_hash": False,
         "decoy": rng.random() < 0.2,
+        "meta": None,
     }
+    if rng.random() < 0.3:
+        cfg["meta"] = _rand_layer(rng)
     if api != "attr.s" and cfg["cls_eq"] == "cmp_t":
         cfg["cls_eq"] = "t"
     if cfg["cls_eq"] == "cmp_t":
@@ -645,6 +714,7 @@ def _dress(rng, f):
     f = dict(f)
     f["hash"] = rng.choice(["unset", "unset", "t", "f"])
     f["hashDiffers"] = (not f["sameObj"]) and rng.random() < 0.4
+    f["orderKeyed"] = rng.choice(OUTCOMES)
     f["neRaw"] = rng.choice(OUTCOMES)
     f["neKeyed"] = rng.choice(OUTCOMES)
     return f
@@ -661,14 +731,16 @@ def _case(rng, fields, rhs):
 
 
 def _field_space(reduced):
-    for (cmp_, eq) in EQARGS:
+    for (cmp_, eq, order) in EQARGS:
+        if reduced and order in ("t", "f"):
+            continue
         has_key = "key" in (cmp_, eq)
         raws = OUTCOMES if not (reduced and has_key) else ["T", "F"]
         keyeds = OUTCOMES if has_key else ["F"] if reduced else OUTCOMES
         for raw in raws:
             for keyed in keyeds:
                 for same in (False, True):
-                    yield {"cmp": cmp_, "eq": eq, "raw": raw, "keyed": keyed, "sameObj": same}
+                    yield {"cmp": cmp_, "eq": eq, "order": order, "raw": raw, "keyed": keyed, "sameObj": same}
 
 
 def gen_cases(tier, rng):
@@ -701,7 +773,7 @@ def gen_cases(tier, rng):
 BASE_CFG = {"api": "attr.s", "slots": None, "frozen": False, "cls_eq": "unset", "cls_order": "unset",
             "auto_detect": None, "own": None, "split": 0, "root": "object", "mixin": None, "base_mode": "none",
             "base_own": None, "base_keep": "eq_false", "payload_eq": False, "sub_kind": "plain", "sub_own": None,
-            "foreign_kind": "object", "foreign_own": None, "hash_mode": "none", "cache_hash": False, "decoy": False}
+            "foreign_kind": "object", "foreign_own": None, "hash_mode": "none", "cache_hash": False, "decoy": False, "meta": None}
 BASE_HIST = {"hashedX": False, "hashedY": False, "reassignedX": [], "reassignedY": []}
 
 
@@ -736,7 +808,7 @@ def shrink(case):
             for n in hist[k]:
                 yield from _emit(dict(base, hist=dict(hist, **{k: [m for m in hist[k] if m != n]})))
     for i, f in enumerate(fs):
-        for k, v in (("cmp", "unset"), ("eq", "unset"), ("sameObj", False), ("raw", "T"), ("keyed", "T"),
+        for k, v in (("cmp", "unset"), ("eq", "unset"), ("order", "unset"), ("orderKeyed", "T"), ("sameObj", False), ("raw", "T"), ("keyed", "T"),
                      ("hash", "unset"), ("hashDiffers", False), ("neRaw", "T"), ("neKeyed", "T")):
             if f.get(k) != v:
                 yield from _emit(dict(base, fields=fs[:i] + [dict(f, **{k: v})] + fs[i + 1:]))
@@ -755,11 +827,13 @@ def neighbours(case, rng):
 
 LEVEL_TEXT = ("Lean theorems over arbitrary field lists, arbitrary ancestor chains and arbitrary hashing histories "
               "(C03_eq_iff, C03_ne_negation, C03_other_class_notimpl, C03_other_class_identity, C03_nonparticipating_irrelevant, "
-              "C03_history_irrelevant, C03_short_circuit, C03_uses_eq_not_identity, lookupEq_gen/lookupNe_gen (the generated "
+              "C03_history_irrelevant, C03_order_key_irrelevant (a per-field order= key never is an eq key), "
+              "C03_class_identity_not_equality (metaclass ==/!= between classes never matters), C03_short_circuit, "
+              "C03_uses_eq_not_identity, lookupEq_gen/lookupNe_gen (the generated "
               "pair shadows every inherited or hand-written __eq__/__ne__), C03_model_meets_spec) about an executable model of "
               "_make_eq_script/__ne__/add_eq/_determine_attrib_eq_order and of the decision whether equality is generated; the "
               "model is tied to /repo by a differential correspondence over scripted ==/!=/hash outcomes x operand kinds x class "
-              "facts (hand-written methods in the class body, builtin / mixin / attrs ancestors with their own __eq__/__ne__, "
+              "facts (per-field order= arguments with an order key of their own, metaclasses with scripted class ==/!=, hand-written methods in the class body, builtin / mixin / attrs ancestors with their own __eq__/__ne__, "
               "subclass and foreign operands with or without methods) x hashing histories (cache_hash, hash() before the "
               "comparison, fields re-assigned after hashing) x class configurations (api incl. make_class, slots, frozen, "
               "class-level eq/order/cmp, inheritance split). CPython's MRO lookup, object.__ne__ and ==/!= dispatch are "
